@@ -252,9 +252,14 @@ def generate(seed, run, tier):
         return {"config": config, "events": events}
 
     n_writers = crng.choice([1, 1, 2, 3, 4])
+    # sometimes two independent sets live in the process: no shared state
+    n_tries = crng.choice([1, 1, 1, 2])
+    config["tries"] = n_tries
     scripts = [[] for _ in range(n_writers)]
     for ev in adds:
-        scripts[wrng.randrange(n_writers)].append(ev)
+        w = wrng.randrange(n_writers)
+        ev["t"] = w % n_tries
+        scripts[w].append(ev)
     tasks = [("W", i) for i in range(n_writers)] + [("R", i) for i in range(n_readers)] + [("I", i) for i in range(n_iters)]
     live = {}
     budget = length * 4 + 8
@@ -271,11 +276,11 @@ def generate(seed, run, tier):
                         events.append({"op": "iter_cancel", "it": it, "how": frng.choice(["close", "throw"]), "c": "F"})
                         del live[it]
             if "add_raises" in enabled and frng.random() < fault_rate:
-                events.append({"op": "add_nonstring", "what": frng.choice(NONSTRING), "c": "W%d" % idx})
+                events.append({"op": "add_nonstring", "what": frng.choice(NONSTRING), "c": "W%d" % idx, "t": idx % n_tries})
             events.append(ev)
         elif kind == "R":
             op = weighted_choice(wrng, [("match", 6), ("len", 1), ("match_hostless", 1)])
-            ev = {"op": op, "c": "R%d" % idx}
+            ev = {"op": op, "c": "R%d" % idx, "t": idx % n_tries}
             if op == "match":
                 ev["host"] = draw_host(depth + 1)
                 ev["hows"] = draw_hows()
@@ -286,7 +291,7 @@ def generate(seed, run, tier):
         else:
             it = "I%d" % idx
             if it not in live:
-                events.append({"op": "iter_open", "it": it, "c": it})
+                events.append({"op": "iter_open", "it": it, "c": it, "t": idx % n_tries})
                 live[it] = True
             elif wrng.random() < 0.3:
                 events.append({"op": "iter_drain", "it": it, "c": it})
@@ -582,9 +587,11 @@ class Run(object):
             rec = self.iters.pop(ev["it"], None)
             if rec is None:
                 return
-            if ev["how"] == "close":
+            if ev["how"] == "close" and hasattr(rec["gen"], "close"):
                 rec["gen"].close()
-            elif ev["how"] == "drop":
+            elif ev["how"] == "drop" or not hasattr(rec["gen"], "throw"):
+                # (a plain iterator has neither close() nor throw(): dropping it
+                # is the only way to abandon it)
                 rec["gen"] = None
             else:
                 try:
